@@ -1,8 +1,10 @@
 import Props.C20
 import Props.C20b
+import Props.C20c
 #print axioms C20.default_enables_fastmath
 #print axioms C20.no_default_disables_fastmath
 #print axioms C20.explicit_fastmath
 #print axioms C20.hooks_off_by_default
 #print axioms C20.nofast_is_libm
 #print axioms C20.power_law_nofast
+#print axioms C20.nofast_accuracy
